@@ -90,3 +90,51 @@ find_key = Contract(
     loops={0: _loop})
 find_key.raises_allowed = ("ValueError",)
 find_key.ensures_on_raise = _on_raise
+
+
+# ---------------------------------------------------------------------------------------------- how bytes get INTO the buffer
+# unget_bytes(data) and _nonblocking_read() are the only two writers of Input.unprocessed_bytes besides find_key's pops.  Contract, for
+# ANY buffer and ANY data: the buffer afterwards is the buffer before followed by the new bytes, one list element per byte, in order -
+# nothing that was waiting is dropped, overtaken or repeated (the statement's "without losing, duplicating or reordering a byte").
+class _BytesT(TypeSpec):
+    def fresh(self, name, st):
+        return Sym("bytes", fresh(name, T.SI))
+
+
+def _unget_ensures(a, r):
+    old, new = a.self.unprocessed_bytes, a.final.self.unprocessed_bytes
+    return [("post.buffer_is_the_old_buffer_followed_by_the_new_bytes", new == z3.Concat(old, a.string))]
+
+
+unget_bytes = Contract(
+    "input:Input.unget_bytes", "C03", ["self", "string"], kind="method",
+    shapes=[Shape("any_buffer_any_bytes", dict(self=ObjT("Input", dict(unprocessed_bytes=ByteListT())), string=_BytesT()))],
+    ensures=_unget_ensures)
+
+
+def _read_ensures(a, r):
+    st = a.final_state
+    old, new = a.self.unprocessed_bytes, a.final.self.unprocessed_bytes
+    got = st.ghost.get("os.delivered", z3.Empty(T.SI))          # what os.read handed over in this call (nothing if it raised)
+    out = [("post.buffer_is_the_old_buffer_followed_by_what_was_read", new == z3.Concat(old, got))]
+    if getattr(a, "outcome", ("return",))[0] == "return":
+        rr = r.t if isinstance(r, Sym) else (r if z3.is_expr(r) else z3.IntVal(int(r)))
+        out.append(("post.returns_the_number_of_bytes_read", rr == z3.Length(got)))
+    return out          # (on an OSError from the read nothing was delivered: the same clause says the buffer is untouched)
+
+
+def _read_setup(st, values):
+    from contracts.osmodel import init_os
+    init_os(st)
+
+
+import contracts.contexts as _X   # noqa: E402  (STREAM shape, Nonblocking inlined through its real body)
+
+nonblocking_read_bytes = Contract(
+    "input:Input._nonblocking_read#bytes", "C03", ["self"], kind="method",
+    shapes=[Shape("any_buffer", dict(self=ObjT("Input", dict(in_stream=_X.STREAM, unprocessed_bytes=ByteListT()))))],
+    raises={"OSError": "may"}, ensures=_read_ensures)
+nonblocking_read_bytes.setup = _read_setup
+nonblocking_read_bytes.inline = {"Nonblocking": "termhelpers:Nonblocking"}
+
+WRITERS = [unget_bytes, nonblocking_read_bytes]
